@@ -97,3 +97,22 @@ Theorem C09_outline_round_trip : forall b pad sub k ns,
   concat (text_of (Outline.oforest b pad sub k ns)).
 Proof. intros b pad sub k ns Hb Hp Hs. exact (outline_round_trip b pad sub Hb Hp Hs k ns). Qed.
 Print Assumptions C09_outline_round_trip.
+
+(* WITH normalize_whitespace=True, on the trees of quotes and lists over paragraphs of plain words (Proofs/ReflowTree.v, any depth, any markers
+   and paddings): the renderer writes norm t - the same tree with every list marker followed by ONE space; that text is in the fragment
+   again (so it parses to norm t: C03), its HTML is EXACTLY the original's (the padding of a marker is not seen in the HTML - same
+   meaning), and normalizing the normalized tree changes nothing (fixed point, byte for byte: norm t is in normal form) *)
+From Mistletoe Require Import Proofs.ReflowTree.
+Theorem C09_normalize_whitespace_round_trip : forall o t, wwf t = true ->
+  render_md (mkMopts true) None (fst (fst (parse_lines cfg_markdown (text_of (spell (to_f t)))))) = concat (text_of (spell (to_f (norm t)))) /\
+  wwf (norm t) = true /\ wf_b (to_f (norm t)) = true /\ html_f o false (to_f (norm t)) = html_f o false (to_f t) /\ norm (norm t) = norm t.
+Proof. exact normalize_round_trip. Qed.
+Print Assumptions C09_normalize_whitespace_round_trip.
+
+Theorem C09_normalize_whitespace_instance :
+  let t := WItem (MOrdered $"12" 41) 3 [WPara [[ $"consectetur"; $"adipiscing" ]; [ $"elit" ]]; WQuote [WItem (MBullet 42) 4 [WPara [[ $"sed"; $"do"; $"eiusmod" ]]]]] in
+  wwf t = true /\
+  text_of (spell (to_f t)) = [ $"12)   consectetur adipiscing" ++ [10%Z]; $"      elit" ++ [10%Z]; [10%Z]; $"      > *    sed do eiusmod" ++ [10%Z] ] /\
+  text_of (spell (to_f (norm t))) = [ $"12) consectetur adipiscing" ++ [10%Z]; $"    elit" ++ [10%Z]; [10%Z]; $"    > * sed do eiusmod" ++ [10%Z] ].
+Proof. vm_compute. repeat split; reflexivity. Qed.
+Print Assumptions C09_normalize_whitespace_instance.
